@@ -316,6 +316,11 @@ theorem before_head_absurd {h : Plugin} {t : Cbs} (hn : ((h :: t).map (·.name))
     simp only [map_cons, map_append, nodup_cons, mem_append] at hn
     exact hn.1 (Or.inr hh)
 
+theorem before_irrefl {l : Cbs} (hn : (l.map (·.name)).Nodup) {a : Name} (h : Before l a a) : False := by
+  obtain ⟨l1, l2, rfl, h1, h2⟩ := h
+  rw [map_append] at hn
+  exact (nodup_append.mp hn).2.2 a h1 a h2 rfl
+
 /-- if the list respects an edge from `o` to every other callback, `o` is element 0 -/
 theorem first_of_edges {l : Cbs} (hw : WF l) {o : Plugin} (ho : o ∈ l)
     (he : ∀ q ∈ l, q.name ≠ o.name → Before l o.name q.name) : l.head? = some o := by
@@ -403,14 +408,11 @@ theorem precedence_names {cbs : Cbs} {p : Plugin} {x : Name}
     · obtain ⟨q, hq, rfl⟩ := mem_map.mp h
       exact mem_map.mpr ⟨q, (mem_filter.mp hq).1, rfl⟩
     · cases h
-  · simp only at h
-    split at h
-    · rcases h with h | h <;> cases h
-    · rcases h with h | h
-      · obtain ⟨n, _, q, hg, rfl⟩ := mem_resolved h
-        exact mem_map.mpr ⟨q, (getCallback_mem hg).1, rfl⟩
-      · obtain ⟨n, _, q, hg, rfl⟩ := mem_resolved h
-        exact mem_map.mpr ⟨q, (getCallback_mem hg).1, rfl⟩
+  · rcases h with h | h
+    · obtain ⟨n, _, q, hg, rfl⟩ := mem_resolved h
+      exact mem_map.mpr ⟨q, (getCallback_mem hg).1, rfl⟩
+    · obtain ⟨n, _, q, hg, rfl⟩ := mem_resolved h
+      exact mem_map.mpr ⟨q, (getCallback_mem hg).1, rfl⟩
 
 theorem edge_endpoints {cbs : Cbs} {e : Edge} (h : e ∈ edgesOf cbs) :
     e.1 ∈ cbs.map (·.name) ∧ e.2 ∈ cbs.map (·.name) := by
@@ -582,22 +584,7 @@ theorem precedence_filter {cbs : Cbs} (h : WF cbs) (k : Plugin → Bool) {p : Pl
     obtain ⟨q, hq, rfl⟩ := mem_map.mp hx
     obtain ⟨hq1, hq2⟩ := mem_filter.mp hq
     exact mem_map.mpr ⟨q, mem_filter.mpr ⟨(mem_filter.mp hq1).1, hq2⟩, rfl⟩
-  | plain =>
-    simp only
-    by_cases hs : ((p.callBefore.filterMap (getCallback (cbs.filter k))).map (·.name)).contains p.name ||
-        ((p.callAfter.filterMap (getCallback (cbs.filter k))).map (·.name)).contains p.name
-    · rw [if_pos hs]; simp
-    · rw [if_neg hs]
-      have hs' : ¬ (((p.callBefore.filterMap (getCallback cbs)).map (·.name)).contains p.name ||
-          ((p.callAfter.filterMap (getCallback cbs)).map (·.name)).contains p.name) = true := by
-        intro hc
-        apply hs
-        simp only [Bool.or_eq_true, contains_eq_mem, decide_eq_true_eq] at hc ⊢
-        rcases hc with hc | hc
-        · exact Or.inl (resolved_self_keep h k hp hk hc)
-        · exact Or.inr (resolved_self_keep h k hp hk hc)
-      rw [if_neg hs']
-      exact ⟨resolved_filter h k, resolved_filter h k⟩
+  | plain => exact ⟨resolved_filter h k, resolved_filter h k⟩
 
 theorem edgesOf_filter {cbs : Cbs} (h : WF cbs) (k : Plugin → Bool) {e : Edge}
     (he : e ∈ edgesOf (cbs.filter k)) : e ∈ edgesOf cbs := by
@@ -768,7 +755,10 @@ theorem reload_good {ord : Ord} (ho : OrdOk ord) {cbs : Cbs} (g : Good cbs) (nam
         | error e => obtain ⟨er, c'⟩ := e; rw [he] at hreadd; exact hreadd
       · rw [if_neg h2]
         by_cases h3 : f.importOther = true
-        · rw [if_pos h3]; exact ⟨gf, hm⟩
+        · rw [if_pos h3]
+          cases he : readd ord (removeCallback cbs name).2 (removeCallback cbs name).1 with
+          | ok c' => rw [he] at hreadd; exact hreadd
+          | error e => obtain ⟨er, c'⟩ := e; rw [he] at hreadd; exact hreadd
         · rw [if_neg h3]
           by_cases h4 : f.ctorRaises = true
           · rw [if_pos h4]; exact ⟨gf, hm⟩
